@@ -476,6 +476,9 @@ impl Bench {
         };
         let (words, err) = self.apply(seen);
         let out = match words.iter().map(|s| s.as_str()).collect::<Vec<_>>().as_slice() {
+            [] if self.mode_stream && side.is_err() => {
+                "Anomaly: the sequence error reached the consumer neither as an item nor as a Reconnecting notice".to_string()
+            }
             [] => "Dropped".to_string(),
             [w] if *w == format!("Update:{name}") => "Admitted".to_string(),
             ["Err"] => "Error".to_string(),
